@@ -1627,6 +1627,10 @@ func parseFieldNumValue(s string) (float64, int32, error) {
 	if ch == 'f' && len(s) > 1 {
 		// Unsigned integer value
 		ss := s[:len(s)-1]
+		// best-effort parsing returns 0 for text that is not a number
+		if !IsValidNumber(ss) {
+			return 0, Field_Type_Unknown, fmt.Errorf("invalid field value")
+		}
 		n := fastfloat.ParseBestEffort(ss)
 		return n, Field_Type_Float, nil
 	}
